@@ -219,24 +219,26 @@ class OutboxRelay(Entity):
             if lag > self._relay_lag_max:
                 self._relay_lag_max = lag
 
-            relay_events.append(
-                Event(
-                    time=self.now,
-                    event_type="outbox_relay",
-                    target=self._downstream,
-                    context={
-                        "metadata": {
-                            "outbox_name": self.name,
-                            "entry_id": entry.entry_id,
-                        },
-                        "payload": entry.payload,
+            relay_event = Event(
+                time=self.now,
+                event_type="outbox_relay",
+                target=self._downstream,
+                context={
+                    "metadata": {
+                        "outbox_name": self.name,
+                        "entry_id": entry.entry_id,
                     },
-                )
+                    "payload": entry.payload,
+                },
             )
 
-            # Simulate relay latency between entries
+            # Simulate relay latency between entries. The relay event is
+            # stamped with the current instant, so it has to be emitted now:
+            # returned after the latency it would lie in the past.
             if self._relay_latency > 0:
-                yield self._relay_latency
+                yield self._relay_latency, [relay_event]
+            else:
+                relay_events.append(relay_event)
 
         logger.debug(
             "[%s] Poll cycle: relayed %d entries, %d remaining",
